@@ -3,6 +3,7 @@ import SodiumModel.Driver.C01
 import SodiumModel.Driver.C03
 import SodiumModel.Driver.C05
 import SodiumModel.Model.Overlap
+import SodiumModel.Model.OverlapAead
 /-
   C13: the answers for overlapping / in-place calls are, by the property, the answers of the same
   calls on disjoint buffers — so these handlers ignore the placement argument and evaluate the
@@ -94,6 +95,107 @@ def handlePtr (op : String) (args : List String) : Option String :=
     if sm.length > ptrMax ∨ sm.length < 64 then none else some (ptrSignOpen delta sm (← ofHex pk))
   | _, _ => none
 
+/-! Identical-pointer AEAD ops (`aead.<alg>.encip` / `.decip`): answered by the value-level model (C01 handler) AND
+    re-computed by the memory-level, statement-order models of `Model/OverlapAead.lean` with `c == m` in one arena
+    (AD, nonce, key, tag elsewhere; everything else 0x5c).  If the two differ the line is prefixed `MODEL-DISAGREE`. -/
+def adA : Nat := 1000400
+def bufA : Nat := 8192
+
+def arenaLookup (rs : List (Nat × Array UInt8)) (x : Nat) : UInt8 :=
+  match rs.find? (fun (a, arr) => a ≤ x ∧ x < a + arr.size) with
+  | some (a, arr) => arr.getD (x - a) 0
+  | none => 0x5c
+
+/-- (the region table is built once: `arenaLookup` is partially applied) -/
+def mkArena (regions : List (Nat × Bytes)) : Overlap.Mem :=
+  arenaLookup (regions.map fun (a, b) => (a, b.toArray))
+
+/-- the memory-level models are evaluated up to this many message bytes (the AEGIS loop hands each block function
+    a view of the rest of the source: quadratic); longer lines are answered by the value-level model alone -/
+def memMaxChacha : Nat := 5000
+def memMaxAegis : Nat := 1100
+
+def flag (agree : Bool) (line : String) : String := if agree then line else "MODEL-DISAGREE " ++ line
+
+/-- memory-level in-place encrypt: "c mac" read back from the arena -/
+def memEncip (a : String) (m ad n k : Bytes) : Option String :=
+  if m.length > memMaxChacha then none else
+  let mem := mkArena [(bufA, m), (adA, ad), (nonceA, n), (keyA, k)]
+  let sizes := OverlapAead.blocks64 m.length
+  let out (r : Int32 × Overlap.Mem) (ab : Nat) :=
+    (if r.1 != 0 then s!"RC={i32s r.1} " else "") ++ s!"{toHex (Overlap.read r.2 bufA m.length)} {toHex (Overlap.read r.2 macA ab)}"
+  match a with
+  | "chachapoly" => some (out (OverlapAead.origEncryptDetached Sodium.Driver.C01.pOrig sizes (OverlapAead.ptr nonceA 8) (OverlapAead.ptr keyA 32)
+      mem bufA macA bufA m.length adA ad.length) 16)
+  | "chachapoly_ietf" => some (out (OverlapAead.ietfEncryptDetached Sodium.Driver.C01.pIetf sizes (OverlapAead.ptr nonceA 12) (OverlapAead.ptr keyA 32)
+      mem bufA macA bufA m.length adA ad.length) 16)
+  | "xchachapoly" => some (out (OverlapAead.xEncryptDetachedMem Sodium.Driver.C01.pIetf sizes mem bufA macA bufA m.length adA ad.length nonceA keyA) 16)
+  | "aegis128l" => if m.length > memMaxAegis then none else
+    some (out (OverlapAead.aegisEncryptDetached (AegisRef.A128L.variant AegisRef.soft) 16 16 mem bufA macA 32 bufA m.length adA ad.length nonceA keyA) 32)
+  | "aegis256" => if m.length > memMaxAegis then none else
+    some (out (OverlapAead.aegisEncryptDetached (AegisRef.A256.variant AegisRef.soft) 32 32 mem bufA macA 32 bufA m.length adA ad.length nonceA keyA) 32)
+  | _ => none
+
+/-- memory-level in-place decrypt: "rc mlen buffer" -/
+def memDecip (a : String) (c mac ad n k : Bytes) : Option String :=
+  if c.length > memMaxChacha then none else
+  let mem := mkArena [(bufA, c), (adA, ad), (nonceA, n), (keyA, k), (macA, mac)]
+  let sizes := OverlapAead.blocks64 c.length
+  let out (r : Int32 × Overlap.Mem) := s!"{i32s r.1} {if r.1 = 0 then c.length else 0} {toHex (Overlap.read r.2 bufA c.length)}"
+  match a with
+  | "chachapoly" => some (out (OverlapAead.origDecryptDetached Sodium.Driver.C01.pOrig sizes (OverlapAead.ptr nonceA 8) (OverlapAead.ptr keyA 32)
+      mem bufA bufA c.length macA adA ad.length))
+  | "chachapoly_ietf" => some (out (OverlapAead.ietfDecryptDetached Sodium.Driver.C01.pIetf sizes (OverlapAead.ptr nonceA 12) (OverlapAead.ptr keyA 32)
+      mem bufA bufA c.length macA adA ad.length))
+  | "xchachapoly" => some (out (OverlapAead.xDecryptDetachedMem Sodium.Driver.C01.pIetf sizes mem bufA bufA c.length macA adA ad.length nonceA keyA))
+  | "aegis128l" => if c.length > memMaxAegis then none else
+    some (out (OverlapAead.aegisDecryptDetached (AegisRef.A128L.variant AegisRef.soft) 16 16 mem bufA bufA c.length macA 32 adA ad.length nonceA keyA))
+  | "aegis256" => if c.length > memMaxAegis then none else
+    some (out (OverlapAead.aegisDecryptDetached (AegisRef.A256.variant AegisRef.soft) 32 32 mem bufA bufA c.length macA 32 adA ad.length nonceA keyA))
+  | _ => none
+
+/-! AES-256-GCM in place: the memory-level schedule model (`gcmEncryptMem` / `gcmDecryptMem`, `dst == src`) gives the bytes
+    stored and the byte sequence absorbed by GHASH; the tag is `GCTR(J0, GHASH_H(A ‖ pad ‖ that sequence ‖ lengths))` with the
+    specification's AES / GHASH (AD handling and tag finishing are not part of the memory-level model). -/
+def memMaxGcm : Nat := 1100
+
+def gcmParts (n k : Bytes) (len : Nat) : (Bytes → Bytes) × Bytes × Bytes × Bytes :=
+  let ciph := Aes.cipher (Aes.keyExpansion256 k)
+  let h := ciph (zeros 16)
+  let j0 := n ++ [0, 0, 0, 1]
+  (ciph, h, j0, Gcm.gctr ciph (Gcm.inc32 j0) (zeros len))
+
+def gcmTag (ciph : Bytes → Bytes) (h j0 ad g : Bytes) (len : Nat) : Bytes :=
+  Gcm.gctr ciph j0 (Gcm.ghash h (ad ++ Gcm.pad16 ad.length ++ g ++ toBE 8 (8 * ad.length) ++ toBE 8 (8 * len)))
+
+def memGcmEncip (m ad n k : Bytes) : Option String :=
+  if m.length > memMaxGcm then none else
+  let (ciph, h, j0, ks) := gcmParts n k m.length
+  let r := OverlapAead.gcmEncryptMem ks (mkArena [(bufA, m)]) bufA bufA m.length
+  some s!"{toHex (Overlap.read r.1 bufA m.length)} {toHex (gcmTag ciph h j0 ad r.2 m.length)}"
+
+def memGcmDecip (c mac ad n k : Bytes) : Option String :=
+  if c.length > memMaxGcm then none else
+  let (ciph, h, j0, ks) := gcmParts n k c.length
+  let r := OverlapAead.gcmDecryptMem ks (mkArena [(bufA, c)]) bufA bufA c.length
+  -- crypto_verify_16(mac, computed_mac); on failure memset(m, 0xd0, mlen)
+  if gcmTag ciph h j0 ad r.2 c.length == mac then some s!"0 {c.length} {toHex (Overlap.read r.1 bufA c.length)}"
+  else some s!"-1 0 {toHex (List.replicate c.length 0xd0)}"
+
+def aeadInplace (a sfx : String) (xs : List String) : Option String := do
+  let val ← (if sfx = "encip" then Sodium.Driver.C01.handle s!"aead.{a}.enc" xs else Sodium.Driver.C01.handle s!"aead.{a}.dec" ("1" :: xs))
+  let memLine : Option String := match sfx, xs with
+    | "encip", [m, ad, n, k] => do
+      if a = "aes256gcm" then memGcmEncip (← ofHex m) (← ofHex ad) (← ofHex n) (← ofHex k)
+      else memEncip a (← ofHex m) (← ofHex ad) (← ofHex n) (← ofHex k)
+    | "decip", [c, mac, ad, n, k] => do
+      if a = "aes256gcm" then memGcmDecip (← ofHex c) (← ofHex mac) (← ofHex ad) (← ofHex n) (← ofHex k)
+      else memDecip a (← ofHex c) (← ofHex mac) (← ofHex ad) (← ofHex n) (← ofHex k)
+    | _, _ => none
+  match memLine with
+  | some l => some (flag (l == val) val)
+  | none => some val
+
 def handleVal (op : String) (args : List String) : Option String :=
   match op.splitOn ".", args with
   | ["ovl", "secretbox", v, "easy"], [_, m, n, k] => do some s!"0 {toHex (secretboxEasy (prims v) (← ofHex m) (← ofHex n) (← ofHex k))}"
@@ -123,8 +225,8 @@ def handleVal (op : String) (args : List String) : Option String :=
       | "chacha20" => "stream.chacha20_xor_ic" | "chacha20_ietf" => "stream.chacha20_ietf_xor_ic" | "xchacha20" => "stream.xchacha20_xor_ic"
       | "salsa20" => "stream.salsa20_xor_ic" | "xsalsa20" => "stream.xsalsa20_xor_ic" | _ => "stream.salsa2012_xor"
     if name = "stream.salsa2012_xor" then Sodium.Driver.C03.handle name [m, n, k] else Sodium.Driver.C03.handle name [m, n, ic, k]
-  | ["aead", a, "encip"], xs => Sodium.Driver.C01.handle s!"aead.{a}.enc" xs
-  | ["aead", a, "decip"], xs => Sodium.Driver.C01.handle s!"aead.{a}.dec" ("1" :: xs)
+  | ["aead", a, "encip"], xs => aeadInplace a "encip" xs
+  | ["aead", a, "decip"], xs => aeadInplace a "decip" xs
   | _, _ => none
 
 def handle (op : String) (args : List String) : Option String :=
